@@ -147,19 +147,23 @@ Theorem C18_trimdbcs : forall a,
 Proof. exact trimdbcs_spec. Qed.
 Print Assumptions C18_trimdbcs.
 
-(* SubjectEx terminates without a panic; the new title is a suffix of the NUL-terminated title; the type is NORMAL
-   exactly when nothing was removed, REPLY/FORWARD otherwise; the cut never falls after a lead byte *)
+(* SubjectEx terminates without a panic; the new title is a suffix of the NUL-terminated title with no reply/forward
+   tag left in front ([no_prefix_left]); the type is NORMAL exactly when nothing was removed, otherwise it is the type
+   of the tag removed last ([last_chunk]: REPLY for "Re:", FORWARD for "Fw:" and the legacy tag, compared byte-wise
+   case-insensitively, each followed by at most one blank); the cut never falls after a lead byte *)
 Theorem C18_subjectex : forall title,
   exists ty pre rest, subject_ex title = Ok (ty, rest) /\ cprefix title = pre ++ rest /\
-    ((pre = [] /\ ty = ptttype.SUBJECT_NORMAL) \/ (pre <> [] /\ (ty = ptttype.SUBJECT_REPLY \/ ty = ptttype.SUBJECT_FORWARD))) /\
-    dbcs_final pre <> 1.
+    ((pre = [] /\ ty = ptttype.SUBJECT_NORMAL) \/ (pre <> [] /\ last_chunk ty pre)) /\
+    no_prefix_left rest /\ dbcs_final pre <> 1.
 Proof. exact subjectex_spec. Qed.
 Print Assumptions C18_subjectex.
 
 (* StripANSIMoveCmd keeps the length; a byte either stays or is a cursor-movement command byte replaced by 's';
-   text without ESC is returned unchanged *)
+   text without ESC is returned unchanged; and a byte that changes is the command byte of a cursor-movement sequence:
+   ESC, then bytes of "0123456789;,[" only, then one of "ABCDfjHJRu" ([move_seq_end]) *)
 Theorem C18_movecmd : forall s,
-  length (strip_movecmd s) = length s /\ Forall2 move_rel s (strip_movecmd s) /\ (~ In ESC s -> strip_movecmd s = s).
+  length (strip_movecmd s) = length s /\ Forall2 move_rel s (strip_movecmd s) /\ (~ In ESC s -> strip_movecmd s = s) /\
+  (forall i, nth i (strip_movecmd s) 0 <> nth i s 0 -> nth i (strip_movecmd s) 0 = 115 /\ move_seq_end s i).
 Proof. exact movecmd_spec. Qed.
 Print Assumptions C18_movecmd.
 
